@@ -162,9 +162,9 @@ def run(ctx):
     hx = ctx.go_build("c07")
     ctx.log("harness built")
     if ctx.quick():
-        args = ["-gen", "16", "-cap", "250", "-coq", "400", "-life", "100", "-async", "30", "-depth", "1"]
+        args = ["-gen", "16", "-cap", "250", "-coq", "400", "-life", "100", "-async", "30", "-depth", "2"]
     else:
-        args = ["-gen", "150", "-cap", "1500", "-coq", "9000", "-life", "1500", "-async", "400", "-depth", "3"]
+        args = ["-gen", "150", "-cap", "1500", "-coq", "9000", "-life", "1500", "-async", "400", "-depth", "5"]
     lines = ctx.jsonl([hx, "-seed", str(ctx.seed)] + args, timeout=800)
     shapes, dist = {}, {}
     terms, refs = [], []
